@@ -36,6 +36,7 @@ FRAMES['C10'] = [
          frame=[{'what': 'cluster_<name>.tsv in the dataset directory', 'path': r"self\.dir_path / \('cluster_%s\.tsv' % name\)"}] + _dirs(r"self\.dir_path / \('cluster_%s\.tsv' % name\)"), **COMMON),
     dict(entry=(M, 'TemplateModel.save_spikes_subset_waveforms'), label='the three subset files are the only files written', frame=SUBSET_FRAME, **SUBSET),
     dict(entry=(M, 'TemplateModel.close'), label='close writes nothing', frame=[], **COMMON),
+    dict(entry=(M, 'load_model'), frame=LOAD_FRAME, label='reloading creates nothing except the spike-cluster copy and the inverse whitening matrix', **COMMON),
 ]
 FRAMES['C11'] = [
     dict(entry=(G, 'Merger.merge'), label='merging writes only below the output directory; the input directories are only read',
